@@ -14,8 +14,9 @@ RULE = ("cases: amt <n> for n = m*10^e (every trailing-zero count e = 0..19, eve
         "trips through Coin::Serialize and TxInUndoFormatter (heights 0,1,2^31-1,random); dcoin/dundo decode every truncation of valid "
         "records and random bytes. A case is non-trivial when it is not the all-zero coin; distinct = distinct case lines.")
 ASSUMPTIONS = ["secp256k1 premise kept in the theorem statements: for a fully valid uncompressed key, CPubKey::Decompress of its "
-               "compressed form returns the key (Section hypothesis ec_decompress_compress); the executable instance "
-               "model/CompressEC.v is compared with libsecp256k1 by the correspondence only",
+               "compressed form returns the key (ec_premise); for the executable instance model/CompressEC.v (field arithmetic mod "
+               "p = 2^256-2^32-977, compared with libsecp256k1 by the correspondence) this premise is PROVED from two number-theoretic "
+               "premises that stay in the statement: `prime secp_p` and Fermat's little theorem for p",
                "the Gallina models are hand transcriptions of compressor.cpp/compressor.h/coins.h/undo.h/serialize.h; tied by the "
                "correspondence on the listed cases and by the generated constants MAX_SCRIPT_SIZE, N_SPECIAL_SCRIPTS, "
                "SPECIAL_SCRIPT_SIZES, opcodes, MAX_MONEY"]
@@ -349,8 +350,9 @@ LEVEL_TEXT = ("Coq theorems for ALL inputs about Gallina transcriptions of Compr
               "exactly after the record; VARINT is total, round-trips, is canonical (decoded bytes = the unique encoding) and never returns a "
               "wrapped value. Models tied to the real code by differential execution (bytes and decoded values) and generated constants.")
 LEVEL_NOTE = ("The uncompressed-pubkey case (tags 4/5) is proved under the stated secp256k1 premise (decompress after compress is the "
-              "identity on fully valid keys); the executable field-arithmetic instance is checked against libsecp256k1 by correspondence "
-              "only. The statement's range [0, 21M BTC] is covered with room: amounts above 2049638230412172402 (about 2.05e18 satoshi, "
+              "identity on fully valid keys); for the executable field-arithmetic instance that premise is itself a theorem "
+              "(C18_secp_instance_satisfies_premise) under `prime p` and Fermat's little theorem for p, and the instance is checked "
+              "against libsecp256k1 by correspondence. Scripts are byte lists (bytes_ok) in the script/coin theorems. The statement's range [0, 21M BTC] is covered with room: amounts above 2049638230412172402 (about 2.05e18 satoshi, "
               "below INT64_MAX) do NOT round trip because CompressAmount's uint64 arithmetic wraps; those are outside MoneyRange. "
               "Trusted: Coq kernel; dump_params; extraction (ExtrOcamlBasic) and the OCaml/C++ driver glue.")
 TECHNIQUE = "Coq proof (induction, lia, case analysis on the script templates) + differential correspondence"
